@@ -79,3 +79,5 @@ func TestC16Serve(t *testing.T) { core.Run(t, "C16", GenS, ExecS) }
 
 func TestC11Hist(t *testing.T) { core.Run(t, "C11", GenHVerify(4), ExecH) }
 func TestC12Hist(t *testing.T) { core.Run(t, "C12", GenHVerify(6), ExecH) }
+
+func TestC13Start(t *testing.T) { core.Run(t, "C13", GenSt, ExecSt) }
